@@ -242,6 +242,9 @@ func (s *Store) keyResult(op, name string) (*key.CertificateAndKey, error) {
 		return &key.CertificateAndKey{Key: k.RSA}, nil
 	case "emptycert":
 		return &key.CertificateAndKey{Certificate: []byte{}, Key: k.RSA}, nil
+	case "mismatch":
+		// a well-formed certificate that belongs to another key: signing must fail, not be skipped
+		return &key.CertificateAndKey{Certificate: Key("rogue").CertDER, Key: k.RSA}, nil
 	case "garbagecert":
 		return &key.CertificateAndKey{Certificate: []byte("not a certificate"), Key: k.RSA}, nil
 	}
